@@ -134,6 +134,17 @@ def run(chk, facts):
         chk.ob("R-C15-3", f"keyword:{kw}", ok, f"keyword `{kw}` is documented" + (" (reviewed)" if kw in extra_ok and kw not in documented else "") if ok else
                f"`{kw}` is a keyword of the lexer but docs/spec/keywords.md does not list it: a user cannot know that this identifier is taken", loc)
     chk.floor("R-C15-3", n_kw, 35, "lexer keywords")
+    # words the lexer refuses as names (reserved for the target language) must be documented as well
+    try:
+        from .c02 import rejected_words
+        rej, _tk = rejected_words(facts)
+        doc_words = set(re.findall(r"`([A-Za-z_]+)`", doc))
+        for w in sorted(rej):
+            ok = w in doc_words
+            chk.ob("R-C15-3", f"reserved:{w}", ok, f"reserved word `{w}` is documented" if ok else
+                   f"the lexer refuses `{w}` as a name but docs/spec/keywords.md does not mention it", loc)
+    except AnchorError as e:
+        chk.anchor_fail("R-C15-3", e)
 
     # ---------------- R-C15-4 ----------------
     try:
@@ -167,6 +178,10 @@ def run(chk, facts):
         if not fn["mod"].startswith("generate::convert") or not fn.get("body") or fn.get("derived") or fn["mod"].endswith("::state"):
             continue
         n_conv += 1
+        lit_only = _literal_only_helper(syn, fn)
+        if lit_only:
+            chk.ob("R-C15-5", f"{fn['qual']}|literal-text", True, f"{fn['qual']} works on the text of literals only ({lit_only}): not identifiers")
+            continue
         for n in walk(fn["body"]):
             if n.get("k") == "mcall" and n["m"] in ("starts_with", "ends_with", "find", "matches", "rfind", "split", "trim", "trim_start_matches", "trim_end_matches", "replace", "to_lowercase", "to_uppercase", "eq_ignore_ascii_case"):
                 recv = src(strip(n["recv"]))
@@ -183,6 +198,53 @@ def run(chk, facts):
     chk.ob("R-C15-5", "scan", True, f"{n_conv} functions of generate::convert scanned for textual matching")
     chk.floor("R-C15-5", n_conv, 15, "functions of generate::convert")
     chk.notes.append("C15: census of special strings against the documented table; lexer charset; call-resolution order.")
+
+
+LITERAL_VARIANTS = ("Int", "Real", "ENum", "Str", "DocStr")
+
+
+def _literal_only_helper(syn, fn):
+    """a helper of generate::convert whose every call passes nothing but lexeme fields of literal nodes (NodeTy::Int { lit },
+    ENum { num, exp }, Str { lit } ..): the text it inspects is a number or a string body, never an identifier.
+    -> description of the call sites, or None"""
+    if fn.get("impl_of"):
+        return None
+    sites = []
+    for caller in syn.fns:
+        if not caller["mod"].startswith("generate::convert") or not caller.get("body") or caller is fn:
+            continue
+        # arm-scoped bindings of literal lexeme fields
+        for m in walk(caller["body"]):
+            if m.get("k") != "match":
+                continue
+            for a in m["arms"]:
+                bound = {}
+                for p in walk(a["pat"]):
+                    if p.get("k") == "pstruct" and p["p"].startswith("NodeTy::"):
+                        v = p["p"].split("::")[1]
+                        for fname, fp in p["fields"]:
+                            for x in walk(fp):
+                                if x.get("k") == "pident":
+                                    bound[x["name"]] = v
+                for c in walk(a["body"]):
+                    if c.get("k") == "call" and c["f"].get("k") == "path" and c["f"]["p"].split("::")[-1] == fn["name"]:
+                        ids = set()
+                        for arg in c["args"]:
+                            for x in walk(arg):
+                                if x.get("k") == "path" and "::" not in x["p"]:
+                                    ids.add(x["p"])
+                        sites.append(all(bound.get(i) in LITERAL_VARIANTS for i in ids) and bool(ids))
+    # calls outside any match arm (or from elsewhere) are not accepted
+    total = 0
+    for caller in syn.fns:
+        if caller is fn or not caller.get("body"):
+            continue
+        for c in walk(caller["body"]):
+            if c.get("k") == "call" and c["f"].get("k") == "path" and c["f"]["p"].split("::")[-1] == fn["name"]:
+                total += 1
+    if sites and all(sites) and total == len(sites):
+        return f"{len(sites)} call site(s), all on lexeme fields of literal nodes"
+    return None
 
 
 def _is_const_name(p):
